@@ -391,6 +391,15 @@ func (m *passivationManager) trigger(expected *passivationEntry) {
 		}
 
 		entry.refreshDeadline()
+		// The attempt was declined (the actor is suspended, stopping, or asked to
+		// skip one decision) and nothing has been processed since, so the
+		// refreshed deadline is still in the past. Re-queuing it unchanged makes
+		// this loop pop the same entry again at once and spin until the actor's
+		// state changes, starving every other entry. Try again one full timeout
+		// from now instead.
+		if now := time.Now(); !entry.deadline.After(now) {
+			entry.deadline = now.Add(entry.timeout)
+		}
 		cheaps.Push(&m.queue, entry)
 		m.mu.Unlock()
 		m.notify()
